@@ -386,9 +386,19 @@ pub fn gen_instance(rng: &mut Rng, o: &GenOpts) -> InstSpec {
         rng.shuffle(&mut vs);
         vs.truncate(1 + rng.usize(vs.len()));
         h.one_hot.push((constraints[0].id, vs.clone()));
+        // the same constraint may be named by a second hint with other content
+        if rng.chance(1, 3) {
+            let mut vs2 = ids.clone();
+            rng.shuffle(&mut vs2);
+            vs2.truncate(1 + rng.usize(vs2.len()));
+            h.one_hot.push((constraints[0].id, vs2));
+        }
         if rng.chance(1, 2) {
             let ms: Vec<u64> = constraints.iter().skip(1).map(|c| c.id).collect();
-            h.sos1.push((constraints[0].id, ms, vs));
+            h.sos1.push((constraints[0].id, ms.clone(), vs));
+            if rng.chance(1, 3) {
+                h.sos1.push((constraints[0].id, ms, ids.iter().take(1).copied().collect()));
+            }
         }
         Some(h)
     } else {
